@@ -12,7 +12,7 @@ RULE = ("random over dtype (8 int + 2 float dtypes, float values exact quarter-i
         "outputs compared with the extracted Coq model AND judged by the extracted Coq specification (samples_spec + counting "
         "characterisation of the rank-th smallest, sum/count for the mean, ssd_spec, occurrence for find). thorough adds every "
         "placement of templates <=3x3 over {0,1} in images <=4x5 (including flush bottom/right and template = image). "
-        "Non-trivial: image not constant and neighbourhood/template has >=2 members")
+        "Non-trivial: image not constant and neighbourhood/template has >=2 members Added: 7x7 and 2x7x7 neighbourhoods in ignore mode with ranks that are multiples of 7; 64-bit template_match inputs offset by 2**53+1 .. 2**63+7.")
 NOT_PROVED = ["std::nth_element is modelled by its specification (sorted position), not verified",
               "mean_filter's final double division sum/n is outside the model: compared against the correctly rounded quotient",
               "template_match theorem is stated for integer dtypes in the no-overflow regime; bool/float by correspondence only"]
